@@ -148,6 +148,9 @@ func (w *World) doOp() {
 			kinds = append(kinds, "rtdown")
 		}
 	}
+	if w.armed("C12") && w.prof.FS && w.fsRate > 0 && w.C.Prob(1, 3) {
+		kinds = append(kinds, "damage")
+	}
 	if w.prof.States {
 		kinds = append(kinds, "state", "podupdate")
 	}
@@ -173,6 +176,34 @@ func (w *World) doOp() {
 	case "cni":
 		p := pods[w.C.Choose(len(pods))]
 		w.podOp(p)
+	case "damage":
+		// the network state file of a sandbox that is up gets damaged (disk trouble, a crash of an earlier daemon in the
+		// middle of rewriting it): truncated, emptied or garbage
+		var cs []*Container
+		for _, x := range w.conts {
+			if x.Busy == nil && x.Phase == "up" {
+				cs = append(cs, x)
+			}
+		}
+		if len(cs) == 0 {
+			return
+		}
+		x := cs[w.C.Choose(len(cs))]
+		path := gcDirs[1] + "/" + x.ID
+		data, _ := w.FS.Get(path)
+		switch w.C.Choose(3) {
+		case 0:
+			data = data[:len(data)/2]
+		case 1:
+			data = []byte("{")
+		case 2:
+			data = []byte("[{\"NetworkType\":")
+		}
+		w.FS.Put(path, data)
+		x.Tainted = true
+		w.unscripted++
+		w.S.Stat("fault.fs.state-file-damaged")
+		w.S.Sig("F:fs.damaged")
 	case "latedel":
 		x := earlier[w.C.Choose(len(earlier))]
 		x.LateDels++
